@@ -27,7 +27,11 @@ def frequency_test(ctx, seed, quick):
     sc = G.Scenario(cls="sage", d=d, names="idx", n_inner=1, dynamic=True, alpha=F(1, 2), storage=("batch",), imputer="joint",
                     tables="random", numeric="float", seed=seed,
                     stream=[([F((i if i < m else i % 3) * (j + 1) + j) for j in range(d)], i % 2, None, i < m) for i in range(m + ncalls)])
-    tr, _ = G.run_scenario(sc)
+    try:
+        tr, _ = G.run_scenario(sc)
+    except (G.NotObservable, G.ConstructError):
+        ctx.skip("frequency test (state not observable)")
+        return
     orders, rows = {}, {}
     for c in tr["calls"][m:]:
         if c["outcome"] != "ret" or len(c["imputes"]) != d:
